@@ -497,6 +497,12 @@ impl Api for Server {
       0
     };
 
+    #[cfg(ordinals_ord_verif)]
+    crate::VERIF_FUNDED
+      .lock()
+      .unwrap()
+      .push(transaction.clone());
+
     Ok(FundRawTransactionResult {
       hex: serialize(&transaction),
       fee: Amount::from_sat(fee),
